@@ -18,7 +18,7 @@ import (
 type c02Case struct {
 	Hidden bool `json:"hidden"`
 	Msg    int  `json:"msg"`  // index of the handshake datagram that is altered (-1: none)
-	Kind   int  `json:"kind"` // 0 xor mask at offset, 1 truncate to Len, 2 extend by Len bytes (informational), 3 replace by the same-numbered datagram of another handshake
+	Kind   int  `json:"kind"` // 0 xor mask at offset, 1 truncate to Len, 2 extend by Len bytes (informational), 3 replace by the same-numbered datagram of another handshake, 4 truncate to Len after the complete datagram was first sent to the same receiver from a third address (primes its read buffer)
 	Off    int  `json:"off"`
 	Mask   int  `json:"mask"`
 	Len    int  `json:"len"`
@@ -110,6 +110,14 @@ func c02Handshake(c c02Case, v *vlib.Verdict, serial int) (out c02Outcome) {
 		case 1:
 			if c.Len < len(d.Data) {
 				d.Data = d.Data[:c.Len]
+			}
+		case 4:
+			if c.Len < len(d.Data) {
+				prime := d
+				prime.Data = append([]byte(nil), d.Data...)
+				prime.Src = vEvilAddr
+				d.Data = d.Data[:c.Len]
+				return []simnet.Datagram{prime, d}
 			}
 		case 2:
 			d.Data = append(d.Data, vlib.Fill(uint64(c.Len), c.Len)...)
@@ -210,7 +218,7 @@ func c02Run(t *testing.T) func(c c02Case, v *vlib.Verdict) {
 		switch c.Kind {
 		case 0:
 			altered = c.Mask&0xff != 0 && c.Msg < len(out.lens) && c.Off < out.lens[c.Msg]
-		case 1:
+		case 1, 4:
 			altered = c.Msg < len(out.lens) && c.Len < out.lens[c.Msg]
 		case 3:
 			altered = true
@@ -219,7 +227,7 @@ func c02Run(t *testing.T) func(c c02Case, v *vlib.Verdict) {
 			v.Discard = true
 			return
 		}
-		kind := []string{"xor", "truncate", "extend", "transplant"}[c.Kind]
+		kind := []string{"xor", "truncate", "extend", "transplant", "truncate-after-priming"}[c.Kind]
 		v.NonTrivial = true
 		v.Key = fmt.Sprintf("%v/%s/%s/%d/%d/%d/%v", c.Hidden, name, kind, c.Off, c.Mask, c.Len, c.Same)
 		v.Label(map[bool]string{false: "discoverable", true: "hidden"}[c.Hidden] + ":" + name + ":" + kind)
@@ -334,6 +342,13 @@ func TestVerifC02Sweep(t *testing.T) {
 			for _, l := range []int{L - 1, L - 2, L - 16, L - 17, L - 32} {
 				if l >= 0 && !emit(c02Case{Hidden: hidden, Msg: m, Kind: 1, Len: l}) {
 					return
+				}
+			}
+			if m%2 == 0 && !hidden { // datagrams received by the server, whose read buffer is shared by all peers (in hidden mode the priming copy would itself be a fresh valid request)
+				for _, cut := range []int{1, 2, 8, 15, 16, 17, 31, 32, 33, 48} {
+					if l := L - cut; l >= 0 && !emit(c02Case{Hidden: hidden, Msg: m, Kind: 4, Len: l}) {
+						return
+					}
 				}
 			}
 			for _, k := range []int{1, 16} {
